@@ -38,7 +38,7 @@ def peak_table(tier):
            (1010.0, 1960.0), (1880.0, 1020.0), (640.0, 1430.0)]
     oms = [-170.0, -33.3, 12.5, 97.0, 181.0, 359.5, 720.25]
     if tier == "quick":
-        pk = [(pos[i], oms[(2 * i) % len(oms)]) for i in range(9)] + [(pos[0], oms[4]), (pos[4], oms[0]), (pos[8], oms[6])]
+        pk = [(pos[i], oms[(2 * i) % len(oms)]) for i in range(9)] + [(pos[0], oms[4]), (pos[4], oms[4]), (pos[8], oms[4])]
     else:
         pk = [(p, o) for p in pos for o in oms[:4]]
     sc = np.array([p[0][0] for p in pk]); fc = np.array([p[0][1] for p in pk]); om = np.array([p[1] for p in pk])
@@ -81,7 +81,7 @@ def plan(tier, seed):
 
 def _run_sched(desc):
     """compute_gv / compute_geometry / compute_xlylzl run their peak loop under OpenMP with a long private() list: all schedules
-    (T = 2, 3, bound 2) of the instrumented kernels on 5 peaks for a slice of the configurations must give the 1-thread result,
+    (T = 2, 3, bound 2) of the instrumented kernels on 6 peaks (four of them on one frame) for a slice of the configurations must give the 1-thread result,
     which must equal the Python reference"""
     _, tier, mg, c, nch = desc
     from vt.vrt import VRT, check_schedule_independence
@@ -89,8 +89,9 @@ def _run_sched(desc):
     sh = Shard()
     V = VRT()
     sc, fc, om = peak_table("quick")
-    sc, fc, om = sc[:5].copy(), fc[:5].copy(), om[:5].copy()
-    n = 5
+    sc, fc, om = sc[:6].copy(), fc[:6].copy(), om[:6].copy()
+    om[2:5] = om[1]          # a run of peaks from one frame (equal omega) that straddles the static chunk boundaries for T = 2 and 3
+    n = 6
     for idx, (pars, non) in enumerate(configs(mg)):
         if idx % 257 != c * 7 % 257 and idx % 1021 != c:
             continue
